@@ -2,6 +2,7 @@
 Lemmas for XlModel.Crypt (C13): the agile segment loop, UTF-16LE injectivity.
 -/
 import XlModel.Crypt
+import Mathlib.Tactic.SplitIfs
 
 namespace XlModel.Crypt
 open XlModel.Facts.C13
@@ -45,6 +46,77 @@ theorem specSegs_eq (N : Nat) :
   unfold specSegs
   rw [List.range_eq_range']
   rfl
+
+/-! ### standard encryption guards -/
+
+macro "sd_consts" : tactic => `(tactic|
+  simp only [sdInfoMin, sdPkgMin, sdHsLo, sdHsHi, sdHdrMin, sdHdrBase, sdBlockLo, sdBlockLo2, sdAlgLo, sdAlgHi,
+    sdKeyLo, sdKeyHi, sdResLo, sdResHi, sdCspLo, sdRestLo, sdVerifierRC4, sdVerifierAES, svSaltSizeHi, svSaltLo,
+    svSaltHi, svVerLo, svVerHi, svHsLo, svHsHi, svHashLoRC4, svHashHiRC4, svHashLoAES, svHashHiAES, decOffset,
+    decBlock, sliceOK, verifierSlicesOK, Bool.and_eq_true, decide_eq_true_eq, Bool.not_eq_true] at *)
+
+theorem verifierSlices_of_min (alg len : Nat) (h : verifierMin alg ≤ len) : verifierSlicesOK alg len = true := by
+  unfold verifierMin at h
+  unfold verifierSlicesOK
+  by_cases ha : alg = 0
+  · simp only [ha, if_true] at h ⊢; sd_consts; omega
+  · simp only [ha, if_false] at h ⊢; sd_consts; omega
+
+/-- no slice expression of `standardDecrypt` / `standardEncryptionVerifier` can be out of range once the
+guards in front of it have passed — for every EncryptionInfo content and every package length -/
+theorem guardsCore_no_panic (L major minor hs algId keyBits pkgLen : Nat) :
+    guardsCore L major minor hs algId keyBits pkgLen ≠ .panic := by
+  intro h
+  unfold guardsCore at h
+  by_cases c1 : major = 4 ∧ minor = 4
+  · rw [if_pos c1] at h; cases h
+  rw [if_neg c1] at h
+  by_cases c2 : ¬ ((2 ≤ major ∧ major ≤ 4) ∧ minor = 2)
+  · rw [if_pos c2] at h; cases h
+  rw [if_neg c2] at h
+  by_cases c3 : L < sdInfoMin ∨ pkgLen < sdPkgMin
+  · rw [if_pos c3] at h; cases h
+  rw [if_neg c3] at h
+  by_cases c4 : ¬ sliceOK sdHsLo sdHsHi L = true
+  · exact c4 (by clear h; sd_consts; omega)
+  rw [if_neg c4] at h
+  by_cases c5 : hs < sdHdrMin ∨ hs > L - sdHdrBase
+  · rw [if_pos c5] at h; cases h
+  rw [if_neg c5] at h
+  by_cases c6 : ¬ sliceOK sdBlockLo (sdBlockLo2 + hs) L = true
+  · exact c6 (by clear h; sd_consts; omega)
+  rw [if_neg c6] at h
+  by_cases c7 : ¬ (sliceOK sdAlgLo sdAlgHi hs = true ∧ sliceOK sdKeyLo sdKeyHi hs = true ∧ sliceOK sdResLo sdResHi hs = true ∧ sliceOK sdCspLo hs hs = true)
+  · exact c7 (by clear h; sd_consts; omega)
+  rw [if_neg c7] at h
+  by_cases c8 : ¬ sliceOK (sdRestLo + hs) L L = true
+  · exact c8 (by clear h; sd_consts; omega)
+  rw [if_neg c8] at h
+  by_cases c9 : L - (sdRestLo + hs) < verifierMin (algOf algId)
+  · rw [if_pos c9] at h; cases h
+  rw [if_neg c9] at h
+  by_cases c10 : ¬ verifierSlicesOK (algOf algId) (L - (sdRestLo + hs)) = true
+  · exact c10 (verifierSlices_of_min _ _ (by omega))
+  rw [if_neg c10] at h
+  by_cases c11 : keyBits / 8 > 40
+  · rw [if_pos c11] at h; cases h
+  rw [if_neg c11] at h
+  by_cases c12 : ¬ sliceOK decOffset pkgLen pkgLen = true
+  · exact c12 (by clear h; sd_consts; omega)
+  rw [if_neg c12] at h
+  by_cases c13 : ¬ (keyBits / 8 = 16 ∨ keyBits / 8 = 24 ∨ keyBits / 8 = 32)
+  · rw [if_pos c13] at h; cases h
+  rw [if_neg c13] at h
+  by_cases c14 : (pkgLen - decOffset) % decBlock ≠ 0
+  · rw [if_pos c14] at h; cases h
+  rw [if_neg c14] at h
+  cases h
+
+theorem standardGuards_no_panic (info : List Nat) (pkgLen : Nat) : standardGuards info pkgLen ≠ .panic := by
+  unfold standardGuards
+  split
+  · intro h; cases h
+  · exact guardsCore_no_panic _ _ _ _ _ _ _
 
 /-! ### UTF-16LE -/
 
